@@ -4,4 +4,5 @@
 f22_0:
   ret
   call f6_0
+  mov wvsv1(%rip),%rax
   ret
